@@ -451,8 +451,26 @@ class Interp:
         return {}
 
     def op_sync_drop(self, th, o):
-        self.held.pop(o["name"], None)
-        return {}
+        obj = self.held.pop(o["name"], None)
+        names = []
+        if obj is not None:
+            def walk(x, depth=0):
+                sl = getattr(x, "_semlock", None)
+                if sl is not None:
+                    names.append(sl.name)
+                if depth < 3:
+                    for a in ("_lock", "_sleeping_count", "_woken_count", "_wait_semaphore", "_cond", "_flag"):
+                        y = getattr(x, a, None)
+                        if y is not None:
+                            walk(y, depth + 1)
+            walk(obj)
+        self.dropped = getattr(self, "dropped", []) + names
+        del obj
+        return {"names": names}
+
+    def op_sem_snapshot(self, th, o):
+        k = rt.RT.kernel
+        return dict(linked=sorted(k.sems), owned_by_dropped=sorted(n for n in getattr(self, "dropped", []) if n in k.sems))
 
     def op_kill_tracker(self, th, o):
         trk = sys.modules["loky.backend.resource_tracker"]._resource_tracker
